@@ -494,6 +494,15 @@ def Calm (r : Repairs) : State → List Op → Prop
   | _, [] => True
   | s, op :: ops => calmOp r s op ∧ Calm r (step r s op).1 ops
 
+instance (r : Repairs) (s : State) (op : Op) : Decidable (calmOp r s op) := by
+  cases op <;> unfold calmOp <;> infer_instance
+
+instance decCalm (r : Repairs) : (s : State) → (ops : List Op) → Decidable (Calm r s ops)
+  | _, [] => isTrue trivial
+  | s, op :: ops =>
+    have := decCalm r (step r s op).1 ops
+    (inferInstance : Decidable (calmOp r s op ∧ Calm r (step r s op).1 ops))
+
 theorem calm_full (s : State) (ops : List Op) : Calm Repairs.full s ops := by
   induction ops generalizing s with
   | nil => trivial
@@ -536,5 +545,111 @@ theorem run_eq_full (r : Repairs) (ops : List Op) (s : State) (log : List Nat) (
     simp only [run]
     rw [step_eq_full r s op h1] at h2 ⊢
     exact ih _ _ h2
+
+/-! ### the active generation never goes backwards (repaired rotate guard) -/
+
+theorem active_gen_le_step (r : Repairs) (hr : r.rotateOnlyIfNoUpdateInProgress = true) {c : Nat} {s : State} {log : List Nat}
+    (h : Inv c s log) (op : Op) : s.active.keyGen ≤ (step r s op).1.active.keyGen := by
+  cases op with
+  | encrypt =>
+    show _ ≤ (encrypt r s).1.active.keyGen
+    rw [encrypt_eq]
+    repeat' split
+    all_goals simp [bump]
+  | timeout now =>
+    show _ ≤ (timeout s now).active.keyGen
+    rw [timeout_eq]
+    repeat' split
+    all_goals simp
+  | decrypt ph g pn la pto =>
+    show _ ≤ (decrypt r s ph g pn la pto).1.active.keyGen
+    rw [decrypt_eq]
+    by_cases ho : opens s ph g = true <;> simp only [ho, if_true, if_false, Bool.false_eq_true]
+    · by_cases hrot : (ph != s.phase && !(r.rotateOnlyIfNoUpdateInProgress && s.updateInProgress)) = true <;>
+        simp only [hrot, if_true, if_false, Bool.false_eq_true]
+      · split
+        · exact Nat.le_refl _
+        · have hidle : s.timer = none := by
+            simp [hr, State.updateInProgress] at hrot
+            exact hrot.2
+          have := h.idle_gen hidle
+          simp only [rotate_active]
+          omega
+      · exact Nat.le_refl _
+    · split <;> exact Nat.le_refl _
+
+theorem active_gen_le_run (r : Repairs) (hr : r.rotateOnlyIfNoUpdateInProgress = true) {c : Nat} (ops : List Op) {s : State}
+    {log : List Nat} (h : Inv c s log) : s.active.keyGen ≤ (run r (s, log) ops).1.active.keyGen := by
+  induction ops generalizing s log with
+  | nil => exact Nat.le_refl _
+  | cons op ops ih =>
+    exact Nat.le_trans (active_gen_le_step r hr h op) (ih (inv_step r hr h op))
+
+/-! ### failed authentications -/
+
+def Out.isFailure : Out → Bool
+  | .dec .decryptError => true
+  | .dec .aeadLimit => true
+  | _ => false
+
+/-- the failed authentications of a history, in order -/
+def failuresOf (outs : List Out) : List Out := outs.filter Out.isFailure
+
+theorem step_failures (r : Repairs) (s : State) (op : Op) :
+    (step r s op).1.integrityLimit = s.integrityLimit ∧
+      (if Out.isFailure (step r s op).2 then
+        (step r s op).1.failures = s.failures + 1 ∧
+          ((step r s op).2 = .dec .aeadLimit ↔ s.integrityLimit ≤ s.failures + 1)
+      else (step r s op).1.failures = s.failures) := by
+  cases op with
+  | encrypt =>
+    show (encrypt r s).1.integrityLimit = _ ∧ (if Out.isFailure (.enc (encrypt r s).2) then _ else (encrypt r s).1.failures = _)
+    rw [encrypt_eq]
+    repeat' split
+    all_goals simp_all [Out.isFailure]
+  | timeout now =>
+    show (timeout s now).integrityLimit = _ ∧ (if Out.isFailure .tick then _ else (timeout s now).failures = _)
+    rw [timeout_eq]
+    repeat' split
+    all_goals simp_all [Out.isFailure]
+  | decrypt ph g pn la pto =>
+    show (decrypt r s ph g pn la pto).1.integrityLimit = _ ∧
+      (if Out.isFailure (.dec (decrypt r s ph g pn la pto).2) then
+        (decrypt r s ph g pn la pto).1.failures = _ ∧ (Out.dec (decrypt r s ph g pn la pto).2 = _ ↔ _)
+       else (decrypt r s ph g pn la pto).1.failures = _)
+    rw [decrypt_eq]
+    by_cases ho : opens s ph g = true <;> simp only [ho, if_true, if_false, Bool.false_eq_true]
+    · repeat' split
+      all_goals simp_all [Out.isFailure, rotate]
+    · by_cases hi : integrityReached (s.failures + 1) s.integrityLimit = true <;>
+        simp only [hi, if_true, if_false, Bool.false_eq_true]
+      · simp [Out.isFailure]; simpa [integrityReached] using hi
+      · simp [Out.isFailure]; simpa [integrityReached] using hi
+
+
+theorem failures_close (r : Repairs) (ops : List Op) (s : State) (k : Nat) (o : Out)
+    (h : (failuresOf (outputs r s ops))[k]? = some o) :
+    o = .dec .aeadLimit ↔ s.integrityLimit ≤ s.failures + k + 1 := by
+  induction ops generalizing s k with
+  | nil => simp [outputs, failuresOf] at h
+  | cons op ops ih =>
+    obtain ⟨hl, hf⟩ := step_failures r s op
+    simp only [outputs, failuresOf, List.filter_cons] at h
+    by_cases hfail : Out.isFailure (step r s op).2 = true
+    · simp only [hfail, if_true] at h hf
+      cases k with
+      | zero =>
+        simp only [List.getElem?_cons_zero, Option.some.injEq] at h
+        subst h
+        simpa using hf.2
+      | succ k =>
+        simp only [List.getElem?_cons_succ] at h
+        have := ih _ _ h
+        rw [hl, hf.1] at this
+        rw [this]; omega
+    · simp only [hfail, if_false, Bool.false_eq_true] at h hf
+      have := ih _ _ h
+      rw [hl, hf] at this
+      exact this
 
 end Quic.Proofs.KeySetLemmas
